@@ -353,7 +353,34 @@ type rcvCase struct {
 	Phases []string `json:"phases"` // dial:<k> | wait-full | kill-in:<k> | kill-queued:<k> | cancel | sleep:<ms>
 }
 
+// freezeConn: a peer that goes silent without closing: once frozen, nothing it would send leaves, and nothing
+// it receives is read (the TCP connection stays up - a hung process, a black-holing middlebox)
+type freezeConn struct {
+	net.Conn
+	frozen chan struct{}
+}
+
+func (f *freezeConn) Write(b []byte) (int, error) {
+	select {
+	case <-f.frozen:
+		return len(b), nil
+	default:
+		return f.Conn.Write(b)
+	}
+}
+
+func (f *freezeConn) Read(b []byte) (int, error) {
+	n, err := f.Conn.Read(b)
+	select {
+	case <-f.frozen:
+		<-make(chan struct{}) // never returns: the peer no longer reads
+	default:
+	}
+	return n, err
+}
+
 type rcvPeer struct {
+	fz     *freezeConn
 	id     int
 	raw    net.Conn
 	sess   *yamux.Session
@@ -391,13 +418,14 @@ func receiver(c rcvCase, seed int64) (viol []rec.Violation, counts map[string]in
 		yc.LogOutput = io.Discard
 		yc.EnableKeepAlive = false
 		yc.ConnectionWriteTimeout = 120 * time.Second // a queued peer's ping waits until the proxy takes the connection
-		s, err := yamux.Client(raw, yc)
+		fz := &freezeConn{Conn: raw, frozen: make(chan struct{})}
+		s, err := yamux.Client(fz, yc)
 		if err != nil {
 			raw.Close()
 			return nil
 		}
 		mu.Lock()
-		p := &rcvPeer{id: len(peers), raw: raw, sess: s, in: make(chan struct{}), closed: make(chan struct{})}
+		p := &rcvPeer{fz: fz, id: len(peers), raw: raw, sess: s, in: make(chan struct{}), closed: make(chan struct{})}
 		peers = append(peers, p)
 		mu.Unlock()
 		go func() {
@@ -463,7 +491,11 @@ func receiver(c rcvCase, seed int64) (viol []rec.Violation, counts map[string]in
 				return
 			default:
 			}
-			n := len(sel(isIn))
+			// (a peer the harness froze cannot tell whether the proxy still serves it: the proxy's own table counts for those)
+			n := len(sel(func(p *rcvPeer) bool {
+				mu2 := isIn(p)
+				return mu2 && !p.killed
+			}))
 			if r := len(mgr.GetMuxConnections()); r > n {
 				n = r
 			}
@@ -523,6 +555,54 @@ func receiver(c rcvCase, seed int64) (viol []rec.Violation, counts map[string]in
 				_ = p.raw.Close()
 				counts["sessions_killed_by_peer"]++
 			}
+		case strings.HasPrefix(ph, "freeze-in:"):
+			// k served peers go silent (no FIN, no RST); the proxy's own keep-alive (30 s interval, 10 s timeout on
+			// the receiver's sessions) has to notice, drop them and let queued peers in
+			fmt.Sscanf(ph[10:], "%d", &k)
+			var frozenPeers []*rcvPeer
+			for i, p := range sel(isIn) {
+				if i >= k {
+					break
+				}
+				close(p.fz.frozen)
+				mu.Lock()
+				p.killed = true
+				mu.Unlock()
+				frozenPeers = append(frozenPeers, p)
+				counts["peers_gone_silent"]++
+			}
+			start := time.Now()
+			ok := waitUntil(75*time.Second, func() bool {
+				reg := mgr.GetMuxConnections()
+				n := 0
+				for _, p := range sel(isIn) {
+					frozen := false
+					for _, f := range frozenPeers {
+						if f == p {
+							frozen = true
+						}
+					}
+					if !frozen {
+						n++
+					}
+				}
+				mu.Lock()
+				alive := 0
+				for _, p := range peers {
+					if !p.killed {
+						alive++
+					}
+				}
+				mu.Unlock()
+				want := min(c.N, alive)
+				return n == want && len(reg) == want
+			})
+			if !ok {
+				v("silent-session-never-replaced", "%d served peers went silent (connection up, nothing sent or read); 75 s later the manager still lists %d sessions and the peers waiting in the backlog have not been let in (configured count %d)", len(frozenPeers), len(mgr.GetMuxConnections()), c.N)
+			} else {
+				counts["silent_sessions_replaced"]++
+				counts["silent_session_detect_ms_max"] = max(counts["silent_session_detect_ms_max"], time.Since(start).Milliseconds())
+			}
 		case ph == "cancel":
 			cancel()
 			cancelled, cancelledAt = true, time.Now()
@@ -537,8 +617,17 @@ func receiver(c rcvCase, seed int64) (viol []rec.Violation, counts map[string]in
 		cancelledAt = time.Now()
 	}
 	// shutdown: every served session ends, the manager reports closed, the port stops accepting
-	if !waitUntil(15*time.Second, func() bool { return len(sel(isIn)) == 0 }) {
-		v("session-open-after-shutdown", "%d sessions are still served 15 s after the manager's lifetime ended", len(sel(isIn)))
+	// (peers the harness froze never see anything again: they are not asked)
+	stillIn := func(p *rcvPeer) bool {
+		select {
+		case <-p.fz.frozen:
+			return false
+		default:
+			return isIn(p)
+		}
+	}
+	if !waitUntil(15*time.Second, func() bool { return len(sel(stillIn)) == 0 }) {
+		v("session-open-after-shutdown", "%d sessions are still served 15 s after the manager's lifetime ended", len(sel(stillIn)))
 	} else {
 		counts["all_sessions_closed_after_shutdown"]++
 	}
@@ -591,6 +680,7 @@ func TestMuxReceiver(t *testing.T) {
 		{2, []string{"cancel"}},
 		{2, []string{"dial:6", "sleep:20", "cancel"}},
 		{3, []string{"dial:3", "wait-full", "kill-in:3", "dial:3", "wait-full", "kill-in:1", "dial:2", "wait-full", "cancel"}},
+		{1, []string{"dial:2", "wait-full", "freeze-in:1", "cancel"}},
 	}
 	if rec.Thorough() {
 		for n := 1; n <= 4; n++ {
